@@ -505,6 +505,25 @@ func vC12Decode(op vC12Op) (vC12Fields, bool) {
 }
 
 func (tg *vC12Target) direct(op vC12Op) (string, string) {
+	// While Core.run re-creates the API server (after an accepted global edit) it refuses configuration requests with
+	// "terminated" (repair 90f555e). A client of the HTTP API cannot see that refusal (the listener is closed meanwhile:
+	// the HTTP mode of this driver retries the connection); the in-package calls of the direct mode can, so they retry
+	// likewise, as long as Core.run itself has not exited.
+	for try := 0; ; try++ {
+		outcome, msg := tg.directOnce(op)
+		if msg != "terminated" || try >= 400 {
+			return outcome, msg
+		}
+		select {
+		case <-tg.p.done:
+			return outcome, msg
+		default:
+		}
+		time.Sleep(10 * time.Millisecond)
+	}
+}
+
+func (tg *vC12Target) directOnce(op vC12Op) (string, string) {
 	var err error
 	switch op.kind {
 	case "delete":
